@@ -80,6 +80,16 @@ CHECKS = {
         "API-boundary recorders + sys.addaudithook event log vs independent expectation",
         "4/C17",
     ),
+    "C19": (
+        "exploration",
+        "The text written by the real write_input for both programs is parsed by an independent parser and every field compared "
+        "with the object: one geometry line per atom in order with IUPAC symbol and coordinates / CODATA angstrom to 6 decimals, "
+        "charge rounded to nearest, multiplicity, level of theory / basis / run-type keyword or documented default, user fields "
+        "winning; random templates with unique delimiters; callbacks; FileFormatError for unknown programs without file-system "
+        "events (audit hook); WriteInputError for every rendering failure with the file closed.",
+        "runtime oracle: independent parser of the generated text + audit hook",
+        "4/C19",
+    ),
 }
 
 NOT_YET = "check not built yet (work in progress; see DESIGN.md section 5b)"
